@@ -348,6 +348,13 @@ impl<'a> ModelRun<'a> {
             }
             Msg::UpdateAdmin { target, admin } => {
                 let t = resolve(self.ring(), sender, target);
+                // a new admin must be an address the chain's codec accepts (what is a well-formed
+                // address is the address codec's business, C18: the codec itself is the oracle here);
+                // a request naming anything else fails without effect
+                use cosmwasm_std::Api;
+                if cosmwasm_std::testing::MockApi::default().addr_validate(admin).is_err() {
+                    return Err(());
+                }
                 self.set_admin(sender, &t, Some(admin.clone()))
             }
             Msg::ClearAdmin { target } => {
